@@ -371,7 +371,7 @@ package raft
 
 // abstract view of entry.decode for the entry stream of an AppendEntries request (PA1 ghost);
 // the byte-level contract of the function itself is in verif_contracts_codec.go
-//@ view (*entry).decode at (*Raft).onAppendEntriesRequest, (*stateMachine).onApply, openStorage
+//@ view (*entry).decode at (*Raft).onAppendEntriesRequest, (*stateMachine).onApply, openStorage, (*replication).getEntryTerm
 //@   modifies all(e), spos
 //@   ensures result0 == nil ==> spos[ref(r)] == old(spos[ref(r)]) + 1 && e.index == sIdx(ref(r), old(spos[ref(r)])) && e.term == sTerm(ref(r), old(spos[ref(r)])) && e.typ == sTyp(ref(r), old(spos[ref(r)]))
 //@   ensures forall(q, q != ref(r) ==> spos[q] == old(spos[q]))
